@@ -312,6 +312,24 @@ func init() {
 		"verifRetained": func(e *Exec, fn *ssa.Function, a []Value) (Value, *GoPanic) {
 			return e.tb.Const(64, uint64(e.retained(a[0], map[interface{}]bool{}))), nil
 		},
+		// verifShares(a, b): do the two values reach a common byte-slice backing array (overlapping
+		// capacity windows)?  Strings are immutable and do not count.
+		"verifShares": func(e *Exec, fn *ssa.Function, a []Value) (Value, *GoPanic) {
+			var sa, sb []*SliceV
+			e.byteSlices(a[0], map[interface{}]bool{}, &sa)
+			e.byteSlices(a[1], map[interface{}]bool{}, &sb)
+			for _, x := range sa {
+				for _, y := range sb {
+					if x.Base == nil || y.Base == nil || x.Cap == 0 || y.Cap == 0 || !samePtr(x.Base, y.Base) {
+						continue
+					}
+					if x.Off < y.Off+y.Cap && y.Off < x.Off+x.Cap {
+						return e.tb.T, nil
+					}
+				}
+			}
+			return e.tb.F, nil
+		},
 		"verifAllocBytes": func(e *Exec, fn *ssa.Function, a []Value) (Value, *GoPanic) {
 			return e.tb.Const(64, uint64(e.alloc)), nil
 		},
@@ -1027,6 +1045,61 @@ func stringsNative3(name string) handler {
 
 // retained is the size in bytes of everything reachable from v in the executor's heap model:
 // backing arrays once (capacity x element size), string bytes, struct/array cells, map entries.
+// byteSlices collects the byte slices reachable from v (through pointers, structs, arrays,
+// interfaces, maps and slices of anything).
+func (e *Exec) byteSlices(v Value, seen map[interface{}]bool, out *[]*SliceV) {
+	switch x := v.(type) {
+	case *SliceV:
+		if x.Base == nil {
+			return
+		}
+		arr, _ := x.Base.Obj.V.(*ArrayV)
+		isBytes := false
+		if arr != nil && len(arr.E) > 0 {
+			if t, ok := arr.E[0].(*Term); ok && t.W == 8 {
+				isBytes = true
+			}
+		}
+		if isBytes {
+			*out = append(*out, x)
+			return
+		}
+		if arr != nil && !seen[x.Base.Obj] {
+			seen[x.Base.Obj] = true
+			for i := x.Off; i < x.Off+x.Len && i < len(arr.E); i++ {
+				e.byteSlices(arr.E[i], seen, out)
+			}
+		}
+	case *Ptr:
+		if !x.IsNil() && !seen[x.Obj] {
+			seen[x.Obj] = true
+			e.byteSlices(x.Obj.V, seen, out)
+		}
+	case *StructV:
+		for _, f := range x.F {
+			e.byteSlices(f, seen, out)
+		}
+	case *ArrayV:
+		for _, f := range x.E {
+			e.byteSlices(f, seen, out)
+		}
+	case *IfaceV:
+		e.byteSlices(x.V, seen, out)
+	case *MapV:
+		if x.M != nil && !seen[x.M] {
+			seen[x.M] = true
+			for _, en := range x.M.Entries {
+				e.byteSlices(en.K, seen, out)
+				e.byteSlices(en.V, seen, out)
+			}
+		}
+	case *TupleV:
+		for _, f := range x.E {
+			e.byteSlices(f, seen, out)
+		}
+	}
+}
+
 func (e *Exec) retained(v Value, seen map[interface{}]bool) int64 {
 	switch x := v.(type) {
 	case nil:
